@@ -128,3 +128,13 @@ Proof. exact pivot32_in_range. Qed.
 Theorem C20_pivot64_in_range : forall f off range width, 0 < width -> 0 <= f off range width ->
   0 <= Pivot64_Calc f off range width < width.
 Proof. exact pivot64_in_range. Qed.
+
+(* ---- bit-packed record arrays (lm/trie.cc): the size BaseSize() asks for covers every 64-bit access made for any
+        field of any record, the closing record included; with C20_read_after_write_57 / C20_write_frames_57 and the
+        disjointness of records this makes a bit-packed array an array. *)
+From Kenlm Require Import C20.ArrayModel.
+Theorem C20_bitpacked_array_in_bounds : forall entries max_vocab remaining i off,
+  0 <= entries -> 0 <= max_vocab -> 0 <= remaining -> 0 <= i <= entries ->
+  0 <= off < bits_needed max_vocab + remaining ->
+  (i * (bits_needed max_vocab + remaining) + off) / 8 + 8 <= bitpacked_base_size entries max_vocab remaining.
+Proof. exact record_access_in_bounds. Qed.
